@@ -116,7 +116,7 @@ class Parser(object):
         command : ID EQUAL ID arguments
         """
 
-        p[0] = CommandNode(p[1], p[3], p[4], p.lineno(3))
+        p[0] = CommandNode(p[1], p[3], p[4], p.lineno(1))
 
     def p_eems2_command(self, p):
         """
